@@ -1278,6 +1278,8 @@ func (l *Lexer) quotedIdentifier(invalidMode mode, tokenType token.Type, untermi
 			lexemeBuff.WriteRune(char)
 			continue
 		}
+		// where the backslash is: the place to return to when the escape sequence is invalid
+		escCursor, escColumn, escLine := l.cursor-1, l.column-1, l.line
 
 		char, ok = l.advanceChar()
 		if !ok {
@@ -1351,7 +1353,8 @@ func (l *Lexer) quotedIdentifier(invalidMode mode, tokenType token.Type, untermi
 		default:
 			l.pushMode(invalidMode)
 			l.pushMode(invalidEscapeMode)
-			l.backupChars(2)
+			// the escaped character can be longer than one byte or a newline
+			l.cursor, l.column, l.line = escCursor, escColumn, escLine
 			return l.tokenWithValue(tokenType, lexemeBuff.String())
 		}
 	}
@@ -1545,6 +1548,9 @@ func (l *Lexer) scanInvalidEscape() *token.Token {
 	lexemeBuff.WriteRune(char)
 
 	char, _ = l.advanceChar()
+	if char == '\n' {
+		l.incrementLine()
+	}
 	lexemeBuff.WriteRune(char)
 
 	return l.lexError(fmt.Sprintf("invalid escape sequence `%s` in string literal", lexemeBuff.String()))
@@ -1585,6 +1591,8 @@ func (l *Lexer) scanStringLiteralContent() *token.Token {
 			lexemeBuff.WriteRune(char)
 			continue
 		}
+		// where the backslash is: the place to return to when the escape sequence is invalid
+		escCursor, escColumn, escLine := l.cursor-1, l.column-1, l.line
 
 		char, ok = l.advanceChar()
 		if !ok {
@@ -1654,7 +1662,8 @@ func (l *Lexer) scanStringLiteralContent() *token.Token {
 			fallthrough
 		default:
 			l.pushMode(invalidEscapeMode)
-			l.backupChars(2)
+			// the escaped character can be longer than one byte or a newline
+			l.cursor, l.column, l.line = escCursor, escColumn, escLine
 			return l.tokenWithValue(token.STRING_CONTENT, lexemeBuff.String())
 		}
 	}
